@@ -81,3 +81,32 @@ Example C03_history_nonvacuous :
     | None => False
     end.
 Proof. exact wal_log_example. Qed.
+
+(* ---- capture, read off the log, over the histories of C04_history (Props/C04.v) ----
+   After EVERY (well-formed) history of those steps - in either journal mode - the newest transaction file has the
+   database's size and position, and every page it names is the logical database's version of that page ([lpage]: the
+   log's last committed frame for the page, else the database file's page): what was captured at the last write-lock
+   release is exactly what SQLite committed, nothing of an earlier or aborted generation. *)
+Require Import LF.Proofs.ComposeProofs LF.Proofs.FollowWalProofs LF.Proofs.RestartHistoryProofs LF.Proofs.PrimaryRestartProofs.
+Theorem C03_history_newest_file_is_logical_database : forall lock gs s v f rest,
+  1 <= lock -> wf_gsteps (init lock) gs -> run_gsteps (init lock) (fun _ => 0) gs = Some (s, v) ->
+  rev (ltxdir s) = f :: rest ->
+  l_commit f = pageN s /\ l_max f = txid s /\ l_post f = chk s /\
+  forall p q, In (p, q) (l_pages f) -> 1 <= p <= l_commit f -> lpage s p = q.
+Proof. exact g_history_last_agree. Qed.
+Print Assumptions C03_history_newest_file_is_logical_database.
+
+(* Non-vacuity: create, restart, switch to WAL mode, a WAL transaction that rewrites page 2 twice and grows the database:
+   the newest file 3-3 holds the last version of each page *)
+Example C03_history_newest_file_nonvacuous :
+  let pw h n := mkPg (fl h) n true in
+  wf_gsteps (init 2097153) restart_example_history /\
+  match run_gsteps (init 2097153) (fun _ => 0) restart_example_history with
+  | Some (s, _) => match rev (ltxdir s) with
+                   | f :: _ => (l_min f, l_max f, l_commit f, l_pages f, map (lpage s) [1; 2; 3], pageN s)
+                               = (3, 3, 3, [(1, pw 14 3); (2, pw 23 0); (3, pw 33 0)], [pw 14 3; pw 23 0; pw 33 0], 3)
+                   | [] => False
+                   end
+  | None => False
+  end.
+Proof. exact last_agree_example. Qed.
